@@ -917,13 +917,17 @@ fn builtin_write(args: Vec<Rc<Object>>) -> Result<Rc<Object>, String> {
                 FileHandle::Stdin => Err("cannot write to stdin".to_string()),
                 FileHandle::Stdout => match args[1].as_ref() {
                     Object::Byte(b) => {
-                        print!("{}", *b as char);
+                        if let Err(e) = write!(io::stdout(), "{}", *b as char) {
+                            return Ok(Rc::new(Object::Err(ErrorObj::IO(e))));
+                        }
                         Ok(Rc::new(Object::Integer(1)))
                     }
                     Object::Arr(arr) => {
                         for obj in arr.elements.borrow().iter() {
                             if let Object::Byte(b) = obj.as_ref() {
-                                print!("{}", *b as char);
+                                if let Err(e) = write!(io::stdout(), "{}", *b as char) {
+                                    return Ok(Rc::new(Object::Err(ErrorObj::IO(e))));
+                                }
                             } else {
                                 return Err(String::from("array should contain only bytes"));
                             }
@@ -931,7 +935,9 @@ fn builtin_write(args: Vec<Rc<Object>>) -> Result<Rc<Object>, String> {
                         Ok(Rc::new(Object::Integer(arr.elements.borrow().len() as i64)))
                     }
                     Object::Str(s) => {
-                        print!("{}", s);
+                        if let Err(e) = write!(io::stdout(), "{}", s) {
+                            return Ok(Rc::new(Object::Err(ErrorObj::IO(e))));
+                        }
                         Ok(Rc::new(Object::Integer(s.len() as i64)))
                     }
                     Object::Packet(s) => {
@@ -947,13 +953,17 @@ fn builtin_write(args: Vec<Rc<Object>>) -> Result<Rc<Object>, String> {
                 },
                 FileHandle::Stderr => match args[1].as_ref() {
                     Object::Byte(b) => {
-                        eprint!("{}", *b as char);
+                        if let Err(e) = write!(io::stderr(), "{}", *b as char) {
+                            return Ok(Rc::new(Object::Err(ErrorObj::IO(e))));
+                        }
                         Ok(Rc::new(Object::Integer(1)))
                     }
                     Object::Arr(arr) => {
                         for obj in arr.elements.borrow().iter() {
                             if let Object::Byte(b) = obj.as_ref() {
-                                eprint!("{}", *b as char);
+                                if let Err(e) = write!(io::stderr(), "{}", *b as char) {
+                                    return Ok(Rc::new(Object::Err(ErrorObj::IO(e))));
+                                }
                             } else {
                                 return Err(String::from("array should contain only bytes"));
                             }
@@ -961,7 +971,9 @@ fn builtin_write(args: Vec<Rc<Object>>) -> Result<Rc<Object>, String> {
                         Ok(Rc::new(Object::Integer(arr.elements.borrow().len() as i64)))
                     }
                     Object::Str(s) => {
-                        eprint!("{}", s);
+                        if let Err(e) = write!(io::stderr(), "{}", s) {
+                            return Ok(Rc::new(Object::Err(ErrorObj::IO(e))));
+                        }
                         Ok(Rc::new(Object::Integer(s.len() as i64)))
                     }
                     Object::Packet(s) => {
